@@ -70,8 +70,9 @@ class Seams:
             return p[len(self.root) + 1:]
         if "/site-packages/" in p:
             return "<SITE>/" + p.split("/site-packages/", 1)[1]
-        if p.startswith("/repo/"):
-            return "<REPO>/" + p[6:]
+        repo = os.path.realpath(os.environ.get("CIJSIM_REPO", "/repo")) + "/"
+        if p.startswith(repo):
+            return "<REPO>/" + p[len(repo):]
         return "<OUT>/" + os.path.basename(p)
 
     def log(self, kind, *fields):
